@@ -871,7 +871,13 @@ func runCase(c Case) (res *result) {
 		if c.Gate > 0 {
 			k = (c.Gate - 1) % n
 		}
-		res.s("gated")
+		pos := "middle"
+		if k == 0 {
+			pos = "first"
+		} else if k == n-1 {
+			pos = "last"
+		}
+		res.s("gated:" + pos + ":" + c.Dst)
 		gr := &gatedReader{r: bytes.NewReader(cp.chunks[k]), started: make(chan struct{}), release: make(chan struct{})}
 		type rr struct {
 			done bool
